@@ -329,6 +329,12 @@ func ruleMapAssign(c *chk.Ctx) {
 				continue
 			}
 			retVals = append(retVals, v)
+			// (one `return nil` reached from both failing tests counts for each of them)
+			if ir.IsNilConst(v) {
+				for i := 1; i < len(ir.CondAltsAt(r.Block())); i++ {
+					retVals = append(retVals, v)
+				}
+			}
 		}
 		for _, v := range retVals {
 			if ir.IsNilConst(v) {
